@@ -228,7 +228,7 @@ def describe(tier):
             "arms": "n in {120, 400} x gap {no, 1 Mb} x every <=2-subset of 7 named positions x kind "
             + ("{l, z, w} x profile {flat, step, spike} x outlier {10, 0, 3, 1}" if t else "{l, z}, flat, outlier 10; (step, outlier 10 / off), (spike, outlier 10 / 3 / 1) and 6 chromosome contexts on 5 edge patterns"),
             "schedules": "2 and 3 arm tasks x workers {1, 2}" + (", 4 arm tasks x 1 worker" if t else "") + ", all choice sequences",
-            "pools": "processes 2, 3, 16 (and processes=16 passed to the HMM methods)",
+            "pools": "processes 2, 3, 16 (and processes=16 passed to the HMM methods); tables of 17, 21, 24, 27" + (", 31, 40" if t else "") + " short chromosomes (as many arm tasks) with processes 2, 3, 4, 5, 16",
             "lineage": "400-bin two-chromosome table x gap {no, 1 Mb} x first method {none, haar, hmm} x derivation {same object, copy, 200 kb hole opened by a mask, p arm only, q arm only, drop_low_coverage} x 5 methods for the second call",
         },
         "alphabet": {"kinds": KINDS, "layouts": list(LAYOUTS), "genes": list(GENES), "positions": list(POSITIONS), "contexts": list(CONTEXTS), "methods": list(METHODS)},
@@ -321,6 +321,8 @@ def pool_tables(t):
         {"type": "arms", **arms_spec(120, True, "flat", ["gap-left", "gap-right"], "l", context="five")},
         {"type": "arms", **arms_spec(400, True, "spike", ["first"], "l", 3, context="six-Y-null")},
     ]
+    # many short chromosomes = many arm tasks (batching of tasks over the workers must not lose or reorder any)
+    out += [{"type": "many", "chromosomes": k} for k in ((17, 21, 24, 27, 31, 40) if t else (17, 21, 24, 27))]
     if t:
         out += [
             {"type": "arms", **arms_spec(400, True, "step", ["last"], "w", context="three-with-X")},
@@ -352,6 +354,12 @@ def table_of(spec):
     """(rows, options) for a pool / schedule table spec."""
     if spec["type"] == "words":
         return words_table(spec["word"], spec["layout"], spec["genes"]), {"skip_low": spec.get("skip_low", False), "min_weight": 0, "skip_outliers": 10}
+    if spec["type"] == "many":
+        names = ["chr%d" % (i + 1) for i in range(22)] + ["chrX", "chrY"] + ["chrUn_%d" % i for i in range(1, 40)]
+        rows = []
+        for ci, name in enumerate(names[: spec["chromosomes"]]):
+            rows += big_rows(name, ci, 3 + ci % 2, False, "flat")
+        return rows, {"skip_low": False, "min_weight": 0, "skip_outliers": 10}
     return arms_table(spec), arms_config(spec)
 
 
@@ -607,7 +615,10 @@ def run_pools(case, ctx):
     tdig = digest(rows)
     for method in METHODS:
         serial = judge(ctx, rows, method, cfg, segment(ctx, rows, method, cfg))
-        for procs in (2, 3, 16) if method in POOLED else (16,):
+        many = case["table"]["type"] == "many"
+        if many and method not in POOLED:
+            continue
+        for procs in ((2, 3, 4, 5, 16) if many else (2, 3, 16)) if method in POOLED else (16,):
             ctx.state(("pools", tdig, method, procs), nontrivial=True)
             res = segment(ctx, rows, method, cfg, processes=procs)
             canon = judge(ctx, rows, method, cfg, res, {"processes": procs})
